@@ -16,7 +16,7 @@ from ..gen.programs import Cfg
 from . import c02
 
 MODULES = ["ESV.Props.C09", "ESV.Props.C01"]
-THEOREMS = ["ESV.C09.writer_line_inv", "ESV.C09.writer_entry_pos", "ESV.C09.writer_entry_inline_pos", "ESV.C09.inv_step",
+THEOREMS = ["ESV.C09.writer_line_inv", "ESV.C09.writer_entry_pos", "ESV.C09.writer_entry_inline_pos", "ESV.C09.inv_step", "ESV.C09.writer_no_entry_for_markers",
             "ESV.Beh.validate_sound"]
 
 
@@ -113,8 +113,8 @@ def run(run: core.Run) -> int:
         cfgs = c02.cfgs_for(run.tier)
         sets = dc.routine_sets_from_programs(run, pool, n, cfgs)
         sets = c02.wf_filter(sets, drv, jobs)
-        # input classes on which the decompiled text itself is wrong are C02's known findings
-        sets = [s for s in sets if not set(c02.shapes(s["rs"])) & {"routine_starts_with_jump", "has_call_op", "cross_routine_jump"}]
+        # (no input class is excluded: where the decompiled text itself is wrong - C02's business - no op correspondence
+        # exists and only the per-entry clauses are evaluated)
         args = [{"rs": s["rs"], "ssbs": False} for s in sets] + [{"rs": s["rs"], "ssbs": True} for s in sets[: len(sets) // 3]]
         chunks = [args[i:i + 8] for i in range(0, len(args), 8)]
         outs = pool.map("harness.props.c09:traced_many", chunks, timeout=60)
